@@ -269,6 +269,18 @@ for _r, _props in REFACTORINGS.items():
     if _os.path.exists(_os.path.join(_ROOT, "benign", f"B5-{_r}", "refactor.diff")):
         CORPUS.append({"name": f"refactoring-B5-{_r}", "props": ALL.split(","), "kind": "benign", "edits": [],
                        "diff": f"benign/B5-{_r}/refactor.diff", "base": f"benign/B4-{_r}/stacked.diff"})
+    # sixth pass, on the original tree (round B6: inlining and merging - helpers folded into their callers, sibling
+    # functions merged behind a flag, temporaries removed, early returns turned into elif chains)
+    if _os.path.exists(_os.path.join(_ROOT, "benign", f"B6-{_r}", "refactor.diff")):
+        CORPUS.append({"name": f"refactoring-B6-{_r}", "props": ALL.split(","), "kind": "benign", "edits": [],
+                       "diff": f"benign/B6-{_r}/refactor.diff"})
+# feature twins: the benign half of a seeded feature addition (the feature without the defect) - no check may report them
+for _f in sorted(_os.listdir(_os.path.join(_ROOT, "benign"))):
+    if _f.startswith("F") and _os.path.exists(_os.path.join(_ROOT, "benign", _f, "refactor.diff")):
+        import json as _json0
+        CORPUS.append({"name": f"feature-twin-{_f}", "props": ALL.split(","), "kind": "benign", "edits": [],
+                       "diff": f"benign/{_f}/refactor.diff",
+                       "base": _json0.load(open(_os.path.join(_ROOT, "benign", _f, "refactor.json"))).get("base")})
 
 # ---------------------------------------------------------------- the independently seeded breaking changes (seeded/<id>/patch.diff):
 # the target property's check must report each of them
